@@ -749,13 +749,15 @@ func c06TwoSchemas(x *mc.Exec) {
 // members before it carried).
 func c06Collection(x *mc.Exec) {
 	soft := x.Choose(2, "impl") == 0
-	d := TypeD{Name: "t", Attrs: []AttrD{{"s", kStr}, {"i", Kind{j.AttrTypeInt8, false}}, {"b", Kind{j.AttrTypeBool, true}}},
+	// two byte-string attributes: several decoded byte strings are alive at once, within one
+	// resource and across the members of a collection
+	d := TypeD{Name: "t", Attrs: []AttrD{{"s", kStr}, {"i", Kind{j.AttrTypeInt8, false}}, {"b", Kind{j.AttrTypeBool, true}}, {"y", Kind{j.AttrTypeBytes, false}}, {"py", Kind{j.AttrTypeBytes, true}}},
 		Rels: []RelD{{"one", true, "u", ""}, {"many", false, "u", ""}}}
 	schema := BuildSchema([]TypeD{d, {Name: "u", Attrs: []AttrD{{"z", kStr}}}}, []bool{soft, !soft})
 	variants := []string{
-		`{"type":"t","id":"1","attributes":{"s":"v","i":5,"b":true},"relationships":{"one":{"data":{"type":"u","id":"o1"}},"many":{"data":[{"type":"u","id":"p1"}]}}}`,
+		`{"type":"t","id":"1","attributes":{"s":"v","i":5,"b":true,"y":"QUFB","py":"QkJCQg=="},"relationships":{"one":{"data":{"type":"u","id":"o1"}},"many":{"data":[{"type":"u","id":"p1"}]}}}`,
 		`{"type":"t","id":"2"}`,
-		`{"type":"t","id":"3","attributes":{"i":-7}}`,
+		`{"type":"t","id":"3","attributes":{"i":-7,"y":"Q0ND"}}`,
 		`{"type":"t","id":"4","relationships":{"many":{"data":[]},"one":{"data":null}}}`,
 		`{"type":"u","id":"5","attributes":{"z":"q"}}`,
 		`{"type":"t","attributes":{"b":null}}`,
@@ -802,7 +804,121 @@ func c06Collection(x *mc.Exec) {
 			if d := CompareRes(alone, col.At(i), nil); d != nil {
 				x.Fail(sig+":member-"+d.What, "%s(%s): member %d differs from the same object read alone: %s", via, payload, i, d.Msg)
 			}
+			// the byte strings, read only now that every member (and its copy read alone) has been decoded
+			wantY := map[string][2]string{"1": {"AAA", "BBBB"}, "3": {"CCC", ""}}
+			if w, ok := wantY[fmt.Sprint(col.At(i).Get("id"))]; ok && col.At(i).GetType().Name == "t" {
+				y, _ := col.At(i).Get("y").([]byte)
+				py, _ := col.At(i).Get("py").(*[]byte)
+				gotPy := ""
+				if py != nil {
+					gotPy = string(*py)
+				}
+				if string(y) != w[0] || gotPy != w[1] {
+					x.Fail(sig+":member-bytes", "%s(%s): member %d holds y=%q py=%q, the payload denotes %q and %q", via, payload, i, y, gotPy, w[0], w[1])
+				}
+			}
 		}
+	}
+}
+
+// c06Linkage: relationship data in the wrong shape for the cardinality (a list for a to-one, an
+// object for a to-many) and identifiers with ill-typed members. Such a payload may be refused; if it
+// is accepted, the relationship holds exactly the ids the payload lists (every string "id" found in
+// the data member, by the harness's own reading).
+func c06Linkage(x *mc.Exec) {
+	soft := x.Bool("soft")
+	d := TypeD{Name: "t", Rels: []RelD{{"one", true, "u", ""}, {"many", false, "u", ""}}}
+	schema := BuildSchema([]TypeD{d, {Name: "u"}}, []bool{soft, true})
+	forms := []string{
+		`{"type":"u","id":"x"}`, `[{"type":"u","id":"x"}]`, `[{"type":"u","id":"x"},{"type":"u","id":"y"}]`, `[]`, `null`,
+		`{"type":"u","id":7}`, `"x"`, `7`, `true`, `{"id":"x"}`, `{"type":"u"}`, `[{"id":"x"}]`, `["x"]`, `[null]`, `{}`, `[[{"type":"u","id":"x"}]]`,
+	}
+	rel := []string{"one", "many"}[x.Choose(2, "relationship")]
+	form := forms[x.Choose(len(forms), "data")]
+	via := []string{"UnmarshalResource", "UnmarshalDocument", "UnmarshalPartialResource"}[x.Choose(3, "entry")]
+	payload := fmt.Sprintf(`{"type":"t","id":"r1","relationships":{%q:{"data":%s}}}`, rel, form)
+	x.Render(via + " " + payload)
+	x.R.Sample("linkage", payload)
+	x.R.Mark("nontrivial", mc.Hash(payload, via, soft))
+	var res j.Resource
+	var err error
+	p := Try(func() {
+		switch via {
+		case "UnmarshalResource":
+			res, err = j.UnmarshalResource([]byte(payload), schema)
+		case "UnmarshalPartialResource":
+			var sr *j.SoftResource
+			sr, err = j.UnmarshalPartialResource([]byte(payload), schema)
+			if sr != nil {
+				res = sr
+			}
+		default:
+			var doc *j.Document
+			doc, err = j.UnmarshalDocument([]byte(`{"data":`+payload+`}`), schema)
+			if doc != nil {
+				res, _ = doc.Data.(j.Resource)
+			}
+		}
+	})
+	x.R.Add("transitions", 1)
+	x.Observe(payload, via, p, err != nil)
+	if p != "" {
+		return // C05's business
+	}
+	if err != nil || res == nil {
+		return // refused: nothing is stored
+	}
+	// the ids the payload lists
+	var data any
+	_ = json.Unmarshal([]byte(form), &data)
+	var listed []string
+	var walk func(v any)
+	walk = func(v any) {
+		switch t := v.(type) {
+		case []any:
+			for _, e := range t {
+				if _, nested := e.([]any); nested {
+					walk(e)
+					continue
+				}
+				// every element of a list stands for one identifier; one without a string id
+				// (null, an object lacking it) is the identifier of the empty id
+				id := ""
+				if m, ok := e.(map[string]any); ok {
+					id, _ = m["id"].(string)
+				}
+				listed = append(listed, id)
+			}
+		case map[string]any:
+			if id, ok := t["id"].(string); ok && id != "" {
+				listed = append(listed, id)
+			}
+		}
+	}
+	walk(data)
+	if rel == "one" && len(listed) > 0 {
+		// a to-one relationship holds one id: an empty one reads as no linkage
+		var ne []string
+		for _, id := range listed {
+			if id != "" {
+				ne = append(ne, id)
+			}
+		}
+		listed = ne
+	}
+	var got []string
+	switch v := res.Get(rel).(type) {
+	case string:
+		if v != "" {
+			got = []string{v}
+		}
+	case []string:
+		got = append(got, v...)
+	}
+	sort.Strings(got)
+	sort.Strings(listed)
+	if len(got) != len(listed) || (len(got) > 0 && !reflect.DeepEqual(got, listed)) {
+		x.Fail(fmt.Sprintf("C06:linkage:%s:%s:%s", implName(soft), via, rel), "%s accepts %s and stores %v in %q, the payload lists %v", via, payload, res.Get(rel), rel, listed)
 	}
 }
 
@@ -872,7 +988,7 @@ func c06LargeCollection(x *mc.Exec) {
 func init() {
 	Register(&Prop{
 		ID: "C06",
-		Rule: "Engine A, all choices Full: (a) 20 integer kinds x every integer literal in [-70000,70000] (exhaustive for 8/16-bit kinds and their out-of-range neighbourhood) + +-2^k+{-2..2} (k<=70) + +-10^k+{-1,0,1} (k<=21) + fractions/exponents/-0/null/true/false/strings/arrays, each through Attr.UnmarshalToType and through UnmarshalResource (soft and struct-backed); (b) string/bool/time/bytes kinds x alphabet in 3 JSON encodings, RFC3339 offsets x precisions, near-miss invalid times, canonical and non-canonical base64 (a decoded byte string must be non-nil: the empty string is not null), wrong JSON kinds; (c) whole payloads: 3^5 attribute presence/value combinations x 5 x 4 forms of two to-one relationships x 7 to-many forms x 3 ids x 2 implementations, also read through UnmarshalPartialResource (every member present holds the same value), re-marshaled and re-read; a reduced product (2 attributes) under every iteration order of one member map inside UnmarshalResource (deviation bound 1). (d) collections of 2-3 members over 6 member variants (full, minimal, partial, empty linkage, other type, no id) through UnmarshalCollection and UnmarshalDocument, each member compared with the same object read alone; collections of 15..1001 members, valid or with one out-of-range member first / in the middle / last. Oracle: accepted => stored value equals the math/big / own-unescaper / time.Parse / encoding/base64 reading of the literal; non-trivial = literal that is out of range, fractional, of the wrong kind, or a whole payload",
+		Rule: "Engine A, all choices Full: (a) 20 integer kinds x every integer literal in [-70000,70000] (exhaustive for 8/16-bit kinds and their out-of-range neighbourhood) + +-2^k+{-2..2} (k<=70) + +-10^k+{-1,0,1} (k<=21) + fractions/exponents/-0/null/true/false/strings/arrays, each through Attr.UnmarshalToType and through UnmarshalResource (soft and struct-backed); (b) string/bool/time/bytes kinds x alphabet in 3 JSON encodings, RFC3339 offsets x precisions, near-miss invalid times, canonical and non-canonical base64 (a decoded byte string must be non-nil: the empty string is not null), wrong JSON kinds; (c) whole payloads: 3^5 attribute presence/value combinations x 5 x 4 forms of two to-one relationships x 7 to-many forms x 3 ids x 2 implementations, also read through UnmarshalPartialResource (every member present holds the same value), re-marshaled and re-read; a reduced product (2 attributes) under every iteration order of one member map inside UnmarshalResource (deviation bound 1). (d) collections of 2-3 members over 6 member variants (full, minimal, partial, empty linkage, other type, no id) through UnmarshalCollection and UnmarshalDocument, each member compared with the same object read alone; collections of 15..1001 members, valid or with one out-of-range member first / in the middle / last; (e) 16 shapes of relationship data (wrong shape for the cardinality, ill-typed identifier members) x to-one / to-many x 3 entry points: if accepted, the relationship holds exactly the ids listed. Oracle: accepted => stored value equals the math/big / own-unescaper / time.Parse / encoding/base64 reading of the literal; non-trivial = literal that is out of range, fractional, of the wrong kind, or a whole payload",
 		Assumptions: []string{"no completeness demand: exotic spellings may be rejected; only 'accepted => exact' is judged", "a panic counts as not accepted here (panic freedom is C05)"},
 		Harnesses: []Harness{
 			{Name: "C06/int", Body: c06Int, ShardDepth: 1},
@@ -880,6 +996,7 @@ func init() {
 			{Name: "C06/resource", Body: c06Resource},
 			{Name: "C06/collection", Body: c06Collection},
 			{Name: "C06/large-collection", Body: c06LargeCollection},
+			{Name: "C06/linkage", Body: c06Linkage},
 			{Name: "C06/two-schemas", Body: c06TwoSchemas},
 			{Name: "C06/resource-member-order", Body: c06ResourceOrder, Dev: func() int { return 1 }},
 		},
